@@ -101,6 +101,9 @@ func runHistory(t *testing.T, prop string, seed int64, idx int, n int, replay *S
 			if op["op"] == "join" {
 				line.Welcome, w.lastRoles = w.lastRoles, ""
 			}
+			// in-process clients may do what they like with what they were handed: once recorded, every
+			// EVENT they got is overwritten; nothing the router keeps or hands to others may change (C12, C20)
+			w.scribble(out)
 			if op["op"] == "snapshot" {
 				line.Sizes = w.lastSizes
 				w.lastSizes = nil
@@ -431,7 +434,7 @@ func TestFamily(t *testing.T) {
 			}
 		}
 		var scs []Scenario
-		if (*flagProperty != "C03" && *flagProperty != "C04") || *flagEnum > 0 {
+		if *flagProperty != "C04" || *flagEnum > 0 {
 			scs = append(scs, enumScenariosFor(*flagProperty, depth)...)
 		}
 		if *flagProperty == "C03" || *flagProperty == "C05" || *flagProperty == "C04" {
